@@ -56,6 +56,12 @@ KEEP19 = ('get_cost',)
 
 
 def run(ctx):
+    # premise: model.get_cost(name) is a function of the NAMED specification only (no value
+    # memoised for one metric is returned for another) - the memo rule of C04/C05/C06
+    from .c06 import memo_rule
+    for wname in ('PIT', 'MPS', 'SuperNet'):
+        memo_rule(ctx, 'R19d', f'{wname}._get_single_cost',
+                  ctx.repo.cls(wname).methods['_get_single_cost'], 1, 2)
     repo = ctx.repo
     # R19a
     br = repo.cls('BaseRegularizer')
